@@ -52,6 +52,7 @@ mod optional;
 mod rule;
 mod sequence;
 mod string;
+mod validate;
 
 pub use buildscript::Compile;
 #[doc(hidden)]
